@@ -126,8 +126,8 @@ Definition verify_polyt (P:vparams) (iso read:list iv) (ext int:Z) (events:list 
 (* ---------------------------------------------------------------- select_similar_isoforms: terminal penalties and the candidate cut *)
 (* candidates: (isoform number, number of differing introns, transcript region); read_region = (first exon start, last exon end) *)
 Definition extra_left (delta:Z) (read_region tr:iv) : Z := if fst read_region + delta <? fst tr then 1 else 0.
-Definition extra_right_cur (delta:Z) (read_region tr:iv) : Z := if fst read_region - delta >? snd tr then 1 else 0.     (* the code: read_region[0] *)
-Definition extra_right_fix (delta:Z) (read_region tr:iv) : Z := if snd read_region - delta >? snd tr then 1 else 0.     (* the mirror image of extra_left *)
+Definition extra_right_cur (delta:Z) (read_region tr:iv) : Z := if fst read_region - delta >? snd tr then 1 else 0.     (* the code before fixes/C11_extra_right_typo.diff: read_region[0] *)
+Definition extra_right_fix (delta:Z) (read_region tr:iv) : Z := if snd read_region - delta >? snd tr then 1 else 0.     (* the repaired code: the mirror image of extra_left *)
 Definition best_candidates_gen (xr:Z -> iv -> iv -> Z) (delta:Z) (read_region:iv) (cands:list (Z * Z * iv)) : list Z :=
   let scored := map (fun c => let '(id, diff, tr) := c in (id, diff + xr delta read_region tr + extra_left delta read_region tr)) cands in
   match scored with
